@@ -1,13 +1,88 @@
 (* C08 — Formatting a program does not change what it means.
-   Property theorems only; proofs live in Proofs/FmtP.v. *)
-From Coq Require Import List ZArith.
-From Coq Require Import String.
+   Property theorems only; proofs live in Proofs/FmtP.v.
+
+   Model/Fmt.v: [fmt_prog false] is the canonical printer of the modelled subset, [fmt_prog true] the faithful model of
+   src/syntax/src/formatter.rs (text mode) on that subset, [parse_tok] a recursive-descent parser over the same tokens
+   (blanks and newlines are tokens).  Comparison (1) of the check ties the real formatter's text to [render (fmt_prog true p)],
+   comparison (2) observes the round trip on the implementation itself. *)
+From Coq Require Import List ZArith String.
 From MechV Require Import Base.Sexp Base.Obs Model.Fmt Proofs.FmtP.
 Import ListNotations.
 
-(* The judge is sound: an `ok` on a modelled case means the implementation's formatter emitted (for tag `roundtrip`)
-   exactly the canonical text of the model and the implementation re-parsed it to the same tree and re-formatted it
-   to the same text. *)
+(* 1. Round trip: for EVERY well-formed program of the subset the canonical text parses back to the same tree
+      (structural induction over the whole syntax, all list lengths and nesting depths). *)
+Theorem C08_fmt_parse : forall p : prog, wf_prog p = true -> parse_tok (fmt_prog false p) = Some p.
+Proof. exact fmt_parse_thm. Qed.
+Print Assumptions C08_fmt_parse.
+
+(* 2. Formatting the formatted text again gives the same text. *)
+Theorem C08_fmt_idempotent : forall p p' : prog,
+  wf_prog p = true -> parse_tok (fmt_prog false p) = Some p' -> fmt_prog false p' = fmt_prog false p.
+Proof. exact fmt_idempotent_thm. Qed.
+Print Assumptions C08_fmt_idempotent.
+
+(* 3. A matrix literal keeps its rows: an r x c literal is never printed so that it is read back with another shape. *)
+Theorem C08_matrix_rows_preserved : forall rows rows' : list (list ex),
+  wf (EMat rows) = true ->
+  parse_tok (fmt_prog false [SExpr (EMat rows)]) = Some [SExpr (EMat rows')] ->
+  map (@List.length ex) rows' = map (@List.length ex) rows /\ rows' = rows.
+Proof. exact matrix_rows_preserved_thm. Qed.
+Print Assumptions C08_matrix_rows_preserved.
+
+(* 4. Outside the syntactic classes of the known defects the model of formatter.rs IS the canonical printer ... *)
+Theorem C08_holds : forall p : prog, defect_free p = true -> fmt_prog true p = fmt_prog false p.
+Proof. exact holds_thm. Qed.
+Print Assumptions C08_holds.
+
+(* ... hence the modelled formatter round-trips every well-formed program outside those classes. *)
+Theorem C08_holds_roundtrip : forall p : prog,
+  wf_prog p = true -> defect_free p = true -> parse_tok (fmt_prog true p) = Some p.
+Proof. exact holds_roundtrip. Qed.
+Print Assumptions C08_holds_roundtrip.
+
+(* 5. Inside each class the faithful model of formatter.rs violates the property (witnesses; the first one is the
+      2x3 literal that comes back as a 1x6 literal). *)
+Theorem C08_refuted_matrix_rows : exists p, refutes "matrix-rows" p /\
+  exists r1 r2 flat, p = [SExpr (EMat [r1; r2])] /\ List.length r1 = 3 /\ List.length r2 = 3 /\
+    parse_tok (fmt_prog true p) = Some [SExpr (EMat [flat])] /\ List.length flat = 6.
+Proof. exact refuted_ex_matrix_rows. Qed.
+Print Assumptions C08_refuted_matrix_rows.
+
+Theorem C08_refuted_named_arg_colon : exists p, refutes "named-arg-colon" p.
+Proof. exact refuted_ex_named_arg. Qed.
+Print Assumptions C08_refuted_named_arg_colon.
+
+Theorem C08_refuted_range_increment_order : exists p, refutes "range-increment-order" p.
+Proof. exact refuted_ex_range_inc. Qed.
+Print Assumptions C08_refuted_range_increment_order.
+
+Theorem C08_refuted_strict_neq_spelling : exists p, refutes "strict-neq-spelling" p.
+Proof. exact refuted_ex_sneq. Qed.
+Print Assumptions C08_refuted_strict_neq_spelling.
+
+Theorem C08_refuted_subset_spelling : exists p, refutes "subset-spelling" p.
+Proof. exact refuted_ex_subset. Qed.
+Print Assumptions C08_refuted_subset_spelling.
+
+Theorem C08_refuted_cross_spelling : exists p, refutes "cross-spelling" p.
+Proof. exact refuted_ex_cross. Qed.
+Print Assumptions C08_refuted_cross_spelling.
+
+(* a jagged literal ([1 2; 3]) is a well-formed program that the canonical printer round-trips, but formatter.rs
+   indexes the shorter row out of bounds (the model prints the panic marker) *)
+Theorem C08_refuted_matrix_jagged_panic : exists p, wf_prog p = true /\ existsb is_panic (fmt_prog true p) = true /\
+  parse_tok (fmt_prog false p) = Some p.
+Proof. exact refuted_ex_jagged. Qed.
+Print Assumptions C08_refuted_matrix_jagged_panic.
+
+(* 6. Tokens are determined by their text: two different symbols of the vocabulary never print alike. *)
+Theorem C08_symbols_unambiguous : forall a b : sym,
+  in_vocab a = true -> in_vocab b = true -> sym_text a = sym_text b -> a = b.
+Proof. exact sym_text_inj. Qed.
+Print Assumptions C08_symbols_unambiguous.
+
+(* 7. The judge is sound: `ok` on a modelled case means the implementation re-parsed its own output to the same tree
+      and re-formatted it to the same text, and (tag `roundtrip`) that output is exactly the canonical text of the model. *)
 Theorem C08_judge_sound : forall (p : prog) (o : obs8) (tag : string),
   judge_prog p o = v_ok tag ->
   observed_roundtrip o /\
@@ -19,3 +94,15 @@ Theorem C08_judge_diff_sound : forall cls (o : obs8) (tag : string),
   judge_diff cls o = v_ok tag -> observed_roundtrip o.
 Proof. exact judge_diff_sound. Qed.
 Print Assumptions C08_judge_diff_sound.
+
+(* non-vacuity: a program using most of the subset is well-formed, outside every defect class, and round-trips *)
+Example C08_example :
+  let n1 := ELit (LNum "1") None in let va := EVar "a" None in
+  let p := [SDefine true "x" (Some (KMatrix "u8" ["1"; "3"]))
+              (EMat [[ETerm n1 [(OAdd, ETerm va [(OMul, EParen (ETerm va [(OSub, ENeg n1)]))])];
+                      ETrans va; ECall "f" [(None, ERange n1 None true va)]]]);
+            SAssign "x" [EBrk [EAll; n1]; EDot "b"] (ERec [("k", Some (KScalar "u8"), ETup [n1; ESet [va]])])] in
+  wf_prog p = true /\ defect_free p = true /\ parse_tok (fmt_prog true p) = Some p /\
+  render (fmt_prog true p) = ("~x<[u8]:1,3> := [1 + a * (a - -1) a' f(1..=a)]" ++ nl ++ "x[:,1].b = {k<u8>: (1,{a})}" ++ nl)%string.
+Proof. cbv zeta. repeat split; vm_compute; reflexivity. Qed.
+Print Assumptions C08_example.
